@@ -82,6 +82,7 @@ func C01(ctx *core.Ctx, r *core.Report) {
 	c01RecursionGuardByIdentity(ctx, r)
 	c01DirectiveCoverage(ctx, r)
 	c01PhaseOrder(ctx, r)
+	c01FeaturesAfterIncludes(ctx, r)
 	c01RecursionGuard(ctx, r)
 	c01ConfigInheritance(ctx, r)
 	c01InsertsACopy(ctx, r)
@@ -463,6 +464,7 @@ func C02(ctx *core.Ctx, r *core.Report) {
 	c01CloneIndependence(ctx, r, true)
 	c02AppendOwnSlice(ctx, r)
 	c02CloneTypeUnconditional(ctx, r)
+	c02CloneUnionMembers(ctx, r)
 	c02LookupScope(ctx, r)
 	c02OwnPrefixIsLocal(ctx, r)
 	c02Inheritance(ctx, r)
